@@ -442,6 +442,15 @@ def cache_excl(ctx: Ctx) -> RuleResult:
     dep_loops = [lp_ for lp_ in iter_own_nodes(f.node) if isinstance(lp_, ast.For) and "cache_deps_of" in norm_src(lp_.iter)]
     for st_, v_ in contrib:
         txt = norm_src(v_)
+        widen = [c_ for c_ in ast.walk(v_) if isinstance(c_, ast.Call) and (dotted(c_.func) or "").split(".")[-1] in (
+            "multiple_nodes_successors", "single_node_successors", "descendants", "ancestors", "ancestors_of_iter", "successors", "predecessors",
+            "make_subgraph", "minimal_induced_subgraph") and "cache_deps_of" in norm_src(c_)]
+        if widen:
+            r.ob(False, {"excluded ids": txt})
+            r.violate(f"{f.short}: more than the cache_deps_of nodes is left out of the file ({norm_src(widen[0].func)})", f.loc(st_),
+                      "with cache_deps_of=[clean, train] and clean -> features -> train the file must hold `features` (train depends on it): a "
+                      "closure of the listed nodes drops it and the restart executes it again", txt)
+            return r
         empty = txt in ("set()", "frozenset()", "[]", "set([])", "{}") or (isinstance(v_, ast.Call) and dotted(v_.func) in ("set", "frozenset", "list") and not v_.args)
         in_loop = any(any(x is st_ for x in ast.walk(lp_)) for lp_ in dep_loops)
         selfref = acc in {x.id for x in ast.walk(v_) if isinstance(x, ast.Name)} and "cache_deps_of" not in txt and not in_loop
